@@ -330,7 +330,7 @@ FsmStep(p, d) ==
                       [] op.n = "Update" -> [f EXCEPT !.todo = rest2, !.nUpd = @ + 1]
                       [] OTHER -> [f EXCEPT !.todo = rest2])
             /\ out' = Emit(out, Ev("cb", p, "", op.n, k, op.m, ""))
-            /\ gh' = [GhCb(p, d, op.n) EXCEPT !.ncb[p][op.n] = @ + 1]
+            /\ gh' = IF cfg[p].gates = <<>> THEN GhCb(p, d, op.n) ELSE [GhCb(p, d, op.n) EXCEPT !.ncb[p][op.n] = @ + 1]
             /\ conn' = IF op.n = "OnOpenMessage" THEN [conn EXCEPT ![c].openSeen = TRUE] ELSE conn
             /\ UNCHANGED dial
        [] op.op \in {"cleanup", "closeOnly"} ->
@@ -566,7 +566,7 @@ PDisGo(d)    == [op |-> "disgo", d |-> d]
 PmGateHere(p, name) ==
   LET g == [n |-> name, k |-> gh.ncb[p][name] + 1] IN
   IF (\E i \in 1..Len(cfg[p].gates) : cfg[p].gates[i] = g) /\ g \notin gh.released[p] THEN <<PGate(g)>> ELSE <<>>
-GhLog(p, name) == [gh EXCEPT !.ncb[p][name] = @ + 1]
+GhLog(p, name) == IF cfg[p].gates = <<>> THEN gh ELSE [gh EXCEPT !.ncb[p][name] = @ + 1]   \* counted only when gates are in use
 
 (* RFC 4271 6.8 / RFC 6286: is the local speaker dominant w.r.t. the
    identifier received on the connection of FSM (p, d)?                     *)
